@@ -122,7 +122,9 @@ def reachable_wires(pool_connections):
         if d is None:
             continue
         mod = type(o).__module__ or ""
-        if not (mod.startswith("httpcore") or mod.startswith("sim.")):
+        if not mod.startswith("httpcore"):
+            # only the SUT's own objects are followed (the sim backend object would
+            # lead to the world and thereby to every wire)
             continue
         for v in d.values():
             if isinstance(v, (list, tuple, set)):
@@ -225,6 +227,11 @@ class WaiterObserver:
             return
         self.checked += 1
         self.w.probes["quiescent_with_queue"] += 1
+        if any(x.state == "closing" for x in self.w.wires):
+            # a close is in progress: the task running it re-examines the queue when
+            # it finishes (the connection being closed still counts until then)
+            self.w.probes["quiescent_during_close"] += 1
+            return
         conns = self.pool.connections
         n = self.n
         for r in q:
@@ -235,7 +242,8 @@ class WaiterObserver:
             elif any(c.is_idle() for c in conns):
                 why = "idle-connection-evictable"
             elif any(c.can_handle_request(origin) and c.is_available() for c in conns):
-                why = "available-connection-for-origin"
+                c = next(c for c in conns if c.can_handle_request(origin) and c.is_available())
+                why = "available-connection-for-origin:" + type(c).__name__.replace("Async", "")
             elif any(c.is_closed() for c in conns):
                 why = "closed-connection-in-pool"
             if why is not None:
